@@ -1,15 +1,128 @@
+// simworker is driver and worker in one binary. It is rebuilt by verif.sh for
+// every check from /repo's working tree with -race and the instrumentation
+// overlay.
 package main
 
 import (
+	"encoding/json"
+	"flag"
 	"fmt"
+	"os"
+	"runtime"
+	"strconv"
 
-	"github.com/anishathalye/porcupine"
-	"github.com/protobom/protobom/pkg/reader"
-	verifsim "github.com/protobom/protobom/pkg/verifsim"
+	"verif/internal/core"
+	"verif/internal/engines/concur"
 )
 
+func usage() {
+	fmt.Fprintln(os.Stderr, "usage: verif.sh check <property> [--tier quick|thorough] [--runs N] | replay <file> | selftest")
+	os.Exit(2)
+}
+
 func main() {
-	_ = porcupine.Ok
-	r := reader.New()
-	fmt.Println(r != nil, verifsim.Active())
+	if len(os.Args) < 2 {
+		usage()
+	}
+	exe, _ := os.Executable()
+	home := os.Getenv("VERIF_HOME")
+	work := os.Getenv("VERIF_WORK")
+	if home == "" || work == "" {
+		fmt.Fprintln(os.Stderr, "simworker: run through verif.sh")
+		os.Exit(2)
+	}
+	seed := int64(1)
+	if s := os.Getenv("VERIF_SEED"); s != "" {
+		if v, err := strconv.ParseInt(s, 10, 64); err == nil {
+			seed = v
+		}
+	}
+	d := &core.Driver{Exe: exe, Home: home, Work: work, Par: runtime.NumCPU(), Seed: seed, Out: os.Stdout}
+	switch os.Args[1] {
+	case "worker":
+		if err := core.RunWorker(os.Stdin, os.Stdout); err != nil {
+			fmt.Fprintln(os.Stderr, "worker:", err)
+			os.Exit(3)
+		}
+	case "probe":
+		b, _ := json.Marshal(concur.ProbeRegistries())
+		fmt.Println(string(b))
+	case "check":
+		fs := flag.NewFlagSet("check", flag.ExitOnError)
+		tier := fs.String("tier", os.Getenv("VERIF_TIER"), "quick or thorough")
+		runs := fs.Int("runs", 0, "override the number of runs")
+		if len(os.Args) < 3 {
+			usage()
+		}
+		fs.Parse(os.Args[3:])
+		if *tier != "thorough" {
+			*tier = "quick"
+		}
+		d.Prop, d.Tier, d.Runs = os.Args[2], *tier, *runs
+		if err := d.Probe(); err != nil {
+			fmt.Fprintln(os.Stderr, "verif:", err)
+			os.Exit(2)
+		}
+		os.Exit(d.Check())
+	case "gen":
+		// gen <property> <idx> [tier]: print the generated scenario
+		if len(os.Args) < 4 {
+			usage()
+		}
+		e, err := core.EngineFor(os.Args[2])
+		if err != nil {
+			fmt.Fprintln(os.Stderr, err)
+			os.Exit(2)
+		}
+		idx, _ := strconv.Atoi(os.Args[3])
+		tier := "quick"
+		if len(os.Args) > 4 {
+			tier = os.Args[4]
+		}
+		b, _ := json.MarshalIndent(e.Generate(os.Args[2], seed, tier, idx), "", " ")
+		fmt.Println(string(b))
+	case "exec":
+		// exec <scenario file>: run in a fresh worker, print the whole result
+		if len(os.Args) < 3 {
+			usage()
+		}
+		if err := d.Probe(); err != nil {
+			fmt.Fprintln(os.Stderr, "verif:", err)
+			os.Exit(2)
+		}
+		b, err := os.ReadFile(os.Args[2])
+		if err != nil {
+			fmt.Fprintln(os.Stderr, err)
+			os.Exit(2)
+		}
+		var sc core.Scenario
+		if err := json.Unmarshal(b, &sc); err != nil {
+			fmt.Fprintln(os.Stderr, err)
+			os.Exit(2)
+		}
+		r, herr := d.RunScenario(&sc, 0)
+		if herr != "" {
+			fmt.Fprintln(os.Stderr, herr)
+			os.Exit(2)
+		}
+		for i := range r.Violations {
+			if len(r.Violations[i].Report) > 0 && os.Getenv("VERIF_FULL") == "" {
+				r.Violations[i].Report = "(set VERIF_FULL=1 to see the report)"
+			}
+		}
+		r.Sched.Schedule = nil
+		out, _ := json.MarshalIndent(r, "", " ")
+		fmt.Println(string(out))
+	case "replay":
+		if len(os.Args) < 3 {
+			usage()
+		}
+		if err := d.Probe(); err != nil {
+			fmt.Fprintln(os.Stderr, "verif:", err)
+			os.Exit(2)
+		}
+		os.Exit(d.Replay(os.Args[2]))
+	default:
+		usage()
+	}
 }
